@@ -48,4 +48,19 @@ REGISTRY = {
         "every generated case runs in a child process (logging init is process-global); custom and file appenders only"]},
     "C20": {"engines": [eng("enc_roller", "vh_logging")], "assumptions": SEQ_ASSUME + [
         "the roller is driven through the cfg-gated accessors with a scripted forward-moving clock over a private directory"]},
+    "C07": {"engines": [eng("spmc_stress", "vh_channels", budget_q=25, budget_t=300)], "assumptions": COMMON_ASSUME + [
+        "a clone's start position is exact because the cloning thread is the only user of the parent handle"]},
+    "C11": {"engines": [eng("cache_hist", "vh_cache", budget_q=20, budget_t=180)], "assumptions": COMMON_ASSUME},
+    "C13": {"engines": [eng("cache_hist", "vh_cache", budget_q=20, budget_t=180)], "assumptions": COMMON_ASSUME + [
+        "quiescence = workers joined, then run_maintenance repeated until current_cost and contents are identical for "
+        "three consecutive rounds (at least 40 rounds)"]},
+    "C15": {"engines": [eng("loader", "vh_cache", budget_q=20, budget_t=180)], "assumptions": COMMON_ASSUME},
+    "C16": {"engines": [eng("cache_hist", "vh_cache", budget_q=20, budget_t=180)], "assumptions": COMMON_ASSUME},
+    "C12": {"engines": [eng("cache_seq", "vh_cache", budget_q=20, budget_t=240)], "assumptions": SEQ_ASSUME + [
+        "frozen virtual clock (hook H2); the janitor is parked with maintenance_chance(1<<31) so time and maintenance only "
+        "move when the program says so"]},
+    "C14": {"engines": [eng("policy_seq", "vh_cache", budget_q=20, budget_t=240)], "assumptions": SEQ_ASSUME + [
+        "the model follows how the cache drives a policy: on_admit on every write, AdmitAndEvict victims leave the model, "
+        "evict victims get no on_remove"]},
+    "C17": {"engines": [eng("cache_seq", "vh_cache", budget_q=20, budget_t=240)], "assumptions": SEQ_ASSUME},
 }
